@@ -28,7 +28,8 @@ ASSUMPTIONS = [
     "the tasker whose own action raised is no longer scheduled (its generator is dead); the abort/exit clauses are asserted for the OTHER taskers "
     "(what happens to the raiser's entered frames is reported in evidence as an observation, DESIGN section 3 C03)",
     "programs: templates T1 (two framers, nested frames, one stops itself, one bids stop all), T2 (three framers incl. an inactive one started by bid, abort bid), "
-    "T3 (single framer that never stops until the crash), T4 (a boss stops and restarts a worker with a three-deep outline before the run ends)",
+    "T3 (single framer that never stops until the crash), T4 (a boss stops and restarts a worker with a three-deep outline before the run ends), "
+    "T5/T6 (a framer with a period of 2 / 3 ticks outlives an every-tick framer: ticks on which no tasker is due)",
     "symbolic: crash call number in [0,M] (0 = no crash), tick goals of the bids in [0,4]; selector: exception kind, interrupt site",
     "integer store time; recording runner double wraps each tasker.runner (send only)",
 ]
@@ -103,7 +104,29 @@ def T4():
     ]) + "\n"
 
 
-TEMPLATES = dict(T1=T1, T2=T2, T3=T3, T4=T4)
+def T5(P=2):
+    """a framer with a period of P ticks keeps running after the every-tick framer has stopped itself: on the ticks
+    it is not due nothing is run at all, yet the run must go on until it has stopped too"""
+    return "\n".join([
+        "house h",
+        "  framer slow be active at %d first s0" % P,
+        "    frame s0", "      do verif record at enter", "      do verif record at exit", "      do verif raise at recur",
+        "      go s1 if recurred >= g0",
+        "    frame s1", "      do verif record at enter", "      do verif record at exit", "      do verif raise at recur",
+        "      go s2 if recurred >= g1",
+        "    frame s2", "      bid stop me",
+        "  framer fast be active first x",
+        "    frame x", "      do verif record at enter", "      do verif record at exit", "      do verif raise at recur",
+        "      go y if recurred >= g2",
+        "    frame y", "      bid stop me",
+    ]) + "\n"
+
+
+def T6():
+    return T5(3)
+
+
+TEMPLATES = dict(T1=T1, T2=T2, T3=T3, T4=T4, T5=T5, T6=T6)
 
 
 class Rec:
@@ -247,7 +270,7 @@ def h(sym, template, kind, site, M):
 def obligations(tier):
     out = []
     M = 6 if tier == "quick" else 12
-    temps = ["T1", "T2", "T3", "T4"]
+    temps = ["T1", "T2", "T3", "T4", "T5"] + (["T6"] if tier != "quick" else [])
     for t in temps:
         if t != "T3":
             out.append(Ob("%s/no-crash" % t, h, dict(template=t, kind=0, site="action", M=M), budget=600, covers=["normal-end"],
